@@ -171,7 +171,9 @@ class C07NoDeadEnd(Checker):
     def after(self, w, op, ev):
         if ev['r'] != 'ok':
             return
-        if op['op'] == 'ADD' and op.get('fwd') is None:
+        if op['op'] == 'ADD':
+            # with or without `forward`: the caller may pick among same-named slots, but a success must
+            # still leave the element completable
             node = w.node(op['p'])
         elif op['op'] == 'DOT_SET' and op['v']['kind'] in ('value', 'element'):
             node = w.node(op['p'])
@@ -183,7 +185,7 @@ class C07NoDeadEnd(Checker):
         if m is None:
             return
         ms = [c.name for c in node.children]
-        w.count('c07.accepted_adds_judged')
+        w.count('c07.accepted_adds_judged' + ('.forward' if op.get('fwd') is not None else ''))
         if not m.extendable(ms):
             w.violate('C07', 'dead-end-accepted', {'elem': node.name, 'children': ms})
 
